@@ -59,6 +59,13 @@ def tables(tier):
             perms = [perms[0], perms[-1]]
         for p in perms:
             out.append(dict(kx=k, ky=k, px=list(p), py=list(p[::-1]), fr=fr))
+    # explicit, UNSORTED category order on the component (CategoricalComponent(labels, categories=...)): the
+    # plotted position of a label is its index in that order
+    orders = {2: [(1, 0)], 3: [(2, 0, 1), (1, 2, 0), (0, 2, 1)], 4: [(0, 1, 3, 2), (3, 1, 0, 2)]}
+    for k in (2, 3, 4):
+        for o in (orders[k] if tier == 'quick' else list(itertools.permutations(range(k)))[1:]):
+            out.append(dict(kx=k, ky=k, px=list(range(k)), py=list(range(k))[::-1], fr=fr,
+                            ox=list(o), oy=list(o[::-1])))
     if tier == 'thorough':
         for kx, ky in itertools.permutations((1, 2, 3, 4), 2):
             out.append(dict(kx=kx, ky=ky, px=list(range(kx))[::-1], py=list(range(ky)), fr=fr))
@@ -78,6 +85,10 @@ def make_table(t):
     a = [labx[i % kx] for i, j in rows] + [labx[0], labx[-1], labx[0]]
     b = [laby[j % ky] for i, j in rows] + [laby[-1], laby[0], laby[0]]
     sx, sy = sorted(set(a)), sorted(set(b))
+    if 'ox' in t:
+        sx = [sx[i] for i in t['ox']]
+    if 'oy' in t:
+        sy = [sy[i] for i in t['oy']]
     pos = dict(xn=np.array(xn), yn=np.array(yn),
                a=np.array([sx.index(v) for v in a], dtype=float),
                b=np.array([sy.index(v) for v in b], dtype=float))
@@ -184,7 +195,13 @@ class World(object):
         from glue.core import Data
         cols, self.pos, sx, sy = make_table(t)
         self.cols = cols
-        self.d = Data(label='t', **cols)
+        if 'ox' in t or 'oy' in t:
+            from glue.core.component import CategoricalComponent
+            self.d = Data(label='t', xn=cols['xn'], yn=cols['yn'])
+            self.d.add_component(CategoricalComponent(cols['a'], categories=np.array(sx)), 'a')
+            self.d.add_component(CategoricalComponent(cols['b'], categories=np.array(sy)), 'b')
+        else:
+            self.d = Data(label='t', **cols)
         self.att = dict(num=(self.d.id['xn'], self.d.id['yn']), cat=(self.d.id['a'], self.d.id['b']))
         ca = self.d.get_component(self.d.id['a']).categories
         cb = self.d.get_component(self.d.id['b']).categories
